@@ -139,7 +139,16 @@ impl Sim for FetcherSim {
                 steps: vec![],
                 live_holder: 0,
                 live_keys: vec![],
-                glue: Some(if rng.chance(1, 3) {
+                glue: Some(if rng.chance(1, 4) {
+                    // variant 2: held mutable records updated in place, then advertised in the version held (see glue.rs)
+                    glue::Glue {
+                        capacity: rng.urange(2, 8),
+                        n_far: rng.urange(0, 3),
+                        n_near: rng.urange(1, 4),
+                        arrivals: (0..8).map(|_| rng.below(1 << 16) as u32).collect(),
+                        variant: 2,
+                    }
+                } else if rng.chance(1, 3) {
                     // variant 1: a periodic list consisting mostly of records the node holds (see glue.rs)
                     glue::Glue {
                         capacity: rng.urange(6, 30),
